@@ -1,4 +1,5 @@
 import SccacheModel.Proofs.Atomic
+import SccacheModel.Proofs.AtomicProv
 
 /-! # C06 — disk cache entries appear atomically and survive crashes intact
 
@@ -18,6 +19,15 @@ theorem get_complete (acts : List Act) (a : Act) (tid : Nat) (c : Content) :
     (step s a).2 = .hit tid c →
     ∃ k i, s.threads tid = .getReading k i ∧ c.key = k ∧ c.written = c.total :=
   AtomicM.get_complete acts a tid c
+
+/-- `get_stored_value`: what a lookup returns is **byte-identical to a value that some store of the history was asked
+    to put under exactly that key** (same key, same value identity, same length) and it is complete: never a foreign
+    entry, never a mixture, never a prefix. -/
+theorem get_stored_value (acts : List Act) (tid : Nat) (c : Content)
+    (h : (step (run Sys.init acts) (.getRead tid)).2 = .hit tid c) :
+    (∃ putter, Act.spawnPut putter c.key c.val c.total ∈ acts) ∧ c.written = c.total ∧
+      ∃ i, (run Sys.init acts).threads tid = .getReading c.key i :=
+  AtomicM.get_stored_value acts tid c h
 
 /-- `crash_safe`: a crash after **any** prefix of any interleaving, followed by the start-up scan, leaves no
     temporary name, an index equal to the set of key files, and every key file complete and its own. -/
